@@ -13,6 +13,7 @@ VERIF = os.path.dirname(os.path.dirname(os.path.abspath(__file__)))
 REPO = os.environ.get("VERIF_REPO", "/repo")
 SPEC = os.path.join(VERIF, "spec")
 HARNESS = os.path.join(VERIF, "harness")
+REPLAYS = os.environ.get("VERIF_REPLAY_DIR") or os.path.join(VERIF, "replays")
 GOENV = dict(GOFLAGS="-mod=mod", GOPROXY="off", GOSUMDB="off", GOTOOLCHAIN="local")
 NCPU = os.cpu_count() or 4
 
@@ -61,8 +62,16 @@ class Ctx:
         if key in self._drv:
             return self._drv[key]
         out = os.path.join(self.scratch, cmd + ("-race" if race else "") + "-" + tags.replace(" ", "_"))
-        shutil.copyfile(os.path.join(REPO, "go.sum"), os.path.join(HARNESS, "go.sum"))
         args = ["go", "build", "-tags", tags, "-o", out]
+        if os.path.abspath(REPO) == "/repo":
+            shutil.copyfile(os.path.join(REPO, "go.sum"), os.path.join(HARNESS, "go.sum"))
+        else:
+            # another tree (self-tests on a scratch worktree): an alternative go.mod with the replace redirected
+            mf = os.path.join(self.scratch, "alt.mod")
+            txt = open(os.path.join(HARNESS, "go.mod")).read().replace("=> /repo", "=> " + os.path.abspath(REPO))
+            open(mf, "w").write(txt)
+            shutil.copyfile(os.path.join(HARNESS, "go.sum"), os.path.join(self.scratch, "alt.sum"))
+            args += ["-modfile", mf]
         if race:
             args.append("-race")
         args.append("./cmd/" + cmd)
@@ -335,7 +344,7 @@ class Ctx:
                 return True
 
     def save_replay(self, tf, lines, bad, desc, diag, module, cfgname, subst):
-        d = os.path.join(VERIF, "replays", self.pid, time.strftime("%Y%m%d-%H%M%S") + "-%d" % os.getpid())
+        d = os.path.join(REPLAYS, self.pid, time.strftime("%Y%m%d-%H%M%S") + "-%d" % os.getpid())
         os.makedirs(d, exist_ok=True)
         # keep the scenario containing the rejected line
         lo = bad - 1
@@ -352,7 +361,7 @@ class Ctx:
         return d
 
     def violation(self, desc, files=None, data=None):
-        d = os.path.join(VERIF, "replays", self.pid, time.strftime("%Y%m%d-%H%M%S") + "-%d-%d" % (os.getpid(), len(self.violations)))
+        d = os.path.join(REPLAYS, self.pid, time.strftime("%Y%m%d-%H%M%S") + "-%d-%d" % (os.getpid(), len(self.violations)))
         os.makedirs(d, exist_ok=True)
         for name, src in (files or {}).items():
             if os.path.exists(src):
@@ -377,8 +386,9 @@ class Ctx:
             # no exhaustive run in this check: fall back to the generic keys
             self.cov["evaluations"] = max(1, self.cov.get("events_validated", 0))
             self.cov["distinct_nontrivial"] = max(0, self.cov["traces_validated_against_impl"])
-        os.makedirs(os.path.join(VERIF, "evidence"), exist_ok=True)
-        json.dump(ev, open(os.path.join(VERIF, "evidence", self.pid + ".json"), "w"), indent=1)
+        evdir = os.environ.get("VERIF_EVIDENCE_DIR") or os.path.join(VERIF, "evidence")
+        os.makedirs(evdir, exist_ok=True)
+        json.dump(ev, open(os.path.join(evdir, self.pid + ".json"), "w"), indent=1)
         if not self.keep:
             shutil.rmtree(self.scratch, ignore_errors=True)
         for k in sorted(set(self.known)):
